@@ -193,7 +193,7 @@ class RelRun:
             ln = self.trace_line(a)
             del ln["obs"]
             ln["alt"] = {"k": "none"}
-            ln["id"] = 1000000 + k
+            ln["id"] = 1000000000 + k
             ln["a"], ln["b"] = a["obs"], b["obs"]
             ln["admit_error"] = a["admit_error"] or a.get("admit_pair_error", False)
             lines.append(ln)
@@ -253,8 +253,8 @@ class RelRun:
         rep = self.rep
         byid = {m["mismatch"]: m for m in mism}
         for mid, m in byid.items():
-            if mid >= 1000000:
-                ia, ib = self.pairs[mid - 1000000]
+            if mid >= 1000000000:
+                ia, ib = self.pairs[mid - 1000000000]
                 a, b = self.items[ia], self.items[ib]
                 sig = {"family": self.fam, "tag": a["tag"].split("@")[0], "why": m["why"],
                        "a": a["obs"]["outcome"], "b": b["obs"]["outcome"]}
@@ -307,12 +307,24 @@ class RelRun:
         rep.cov["distinct_nontrivial"] += len(seen)
 
 
+def _has_scalar_sub(e):
+    if isinstance(e, dict):
+        return e.get("k") == "scalar" or any(_has_scalar_sub(v) for v in e.values())
+    if isinstance(e, list):
+        return any(_has_scalar_sub(v) for v in e)
+    return False
+
+
 def _streams_leftjoin(q):
     """Is there a LEFT join reachable from q through streaming (non-blocking) operators?"""
     k = q.get("k")
     if k == "join":
         return q["jt"] == "left" or _streams_leftjoin(q["l"]) or _streams_leftjoin(q["r"])
     if k in ("filter", "project"):
+        # a scalar subquery in the select list / predicate is planned as a LEFT (magic) join feeding this operator
+        exprs = q.get("es") or [q.get("p")]
+        if any(_has_scalar_sub(e) for e in exprs):
+            return True
         return _streams_leftjoin(q["c"])
     if k == "union":
         return _streams_leftjoin(q["l"]) or _streams_leftjoin(q["r"])
@@ -422,6 +434,8 @@ def case_features(it, m):
     f["filter_agg"] = has_filter_agg(it["q"])
     if has_or_absorption(it["q"]):
         f["or_absorption"] = True
+    if it["cfg"].get("hash_joins") is False:
+        f["hash_joins_off"] = True
     bs = it["cfg"].get("batch_size")
     f["bs_lt_rows"] = bs is not None and any(len(d["rows"]) > bs for d in it["db"].values())
     return f
